@@ -100,7 +100,8 @@ def h_multi(params, mask: int, nrec: int, a: int, b: int, s0: int, s1: int):
             rec = []
             for j, sub in enumerate(subs):
                 if sub == "size":
-                    rec.append(SIZES[s0] if r == 0 else SIZES[s1])
+                    # different digit counts per field, so that widths cannot be shared between fields
+                    rec.append(SIZES[(s0 + fi) % len(SIZES)] if r == 0 else SIZES[(s1 + 2 * fi) % len(SIZES)])
                 elif j == 0:
                     rec.append(TOKENS[(a + fi + r) % len(TOKENS)])
                 else:
